@@ -241,6 +241,16 @@ Fixpoint is_pool_size_from (p : N) (n : N) (fuel : nat) : bool :=
 Definition is_pool_size (n : N) : bool := is_pool_size_from 64 n 40.
 Definition handed_over_conn_survives (has_room : bool) (buffered : N) : bool :=
   orb has_room (negb (is_pool_size buffered)).
+(* handler.go activeListener.OnAccept publishes the accept buffer of a handed-over connection (types.VariableAcceptBuffer);
+   newServerConnection creates the read buffer from the PUBLISHED buffer only and, having passed the connection back to
+   transferNewConn, reports it together with the length of its read buffer before the filter chain is created and the
+   connection is started.  `always_published` (Gen/TransferTokens.v transfer_buffer_always_published) = the buffer is
+   published whatever its length; published only when non-empty, an IDLE connection (nothing buffered at hand-over) has no
+   read buffer at that point and the new side never starts it. *)
+Definition handed_over_conn_started (always_published : bool) (buffered : N) : bool :=
+  orb always_published (negb (N.eqb buffered 0)).
+Definition handed_over_conn_served (has_room always_published : bool) (buffered : N) : bool :=
+  andb (handed_over_conn_started always_published buffered) (handed_over_conn_survives has_room buffered).
 
 (* ------------------------------------------------------------------ 4b. hand-over and the write lock
    connection.go: writeDirectly holds the connection's write lock (tryMutex) for the whole doWrite of a response.
@@ -391,13 +401,14 @@ Definition drain_mismatches (l : list drain_case) : list nat := mismatches_from 
 
 (* hand-over at byte offset k of a request frame: replies the client received *)
 Definition xfer_case := (bytes * nat * nat)%type.
-Definition xfer_case_ok (has_room : bool) (k : xfer_case) : bool :=
+Definition xfer_case_ok (has_room always_published : bool) (k : xfer_case) : bool :=
   match k with (frame, off, replies) =>
-    if handed_over_conn_survives has_room (N.of_nat off) then
+    if handed_over_conn_served has_room always_published (N.of_nat off) then
       match frames_with_handover frame off with Some n => Nat.eqb n replies | None => false end
     else Nat.eqb replies 0
   end.
-Definition xfer_mismatches (has_room : bool) (l : list xfer_case) : list nat := mismatches_from (xfer_case_ok has_room) 0 l.
+Definition xfer_mismatches (has_room always_published : bool) (l : list xfer_case) : list nat :=
+  mismatches_from (xfer_case_ok has_room always_published) 0 l.
 
 (* multi-listener server: per listener its exchanges, signal, drain max, tick, tolerance, observed return of
    GracefulStopListeners, per listener whether a connect was still accepted / established afterwards *)
